@@ -1,7 +1,7 @@
 (* C01 — Two endpoints built on the library interoperate, even across transport loss.
    Statements only.  Nothing else may be added to this file. *)
 From MQ Require Import Base.Prelude Alloc.Alloc Framing.Framing Framing.FramingProofs Conn.Types Conn.ConnRecord Conn.Step
-                       Corr.ConnTrace Conn.Scope Conn.Session Conn.IdsQuota Conn.Own Conn.OwnStep Conn.Run Conn.PairQos Conn.PairQos5 Conn.PairSeq Conn.PairSeq5 Conn.PairConc Conn.PairBi Conn.SessInv Conn.PairLoss Conn.PairLossAcc.
+                       Corr.ConnTrace Conn.Scope Conn.Session Conn.IdsQuota Conn.Own Conn.OwnStep Conn.Run Conn.PairQos Conn.PairQos5 Conn.PairSeq Conn.PairSeq5 Conn.PairConc Conn.PairBi Conn.PairConc5 Conn.SessInv Conn.PairLoss Conn.PairLossAcc.
 
 (* what the pair property rests on, each proved for ALL states of one endpoint:
    (i) delivery in any fragmentation is the same byte stream (C09) *)
@@ -173,6 +173,21 @@ Theorem C01_pair_invariant_after_handshake : forall gs gr c1 c2,
 Proof. exact inv_init. Qed.
 Print Assumptions C01_pair_invariant_after_handshake.
 
+(* v5.0 WITH SEVERAL EXCHANGES IN FLIGHT (no topic alias in play; Receive Maximum and Maximum Packet Size negotiated): the
+   invariant [inv5] adds the Receive Maximum accounts to [inv] — the sender's count IS the number of exchanges in flight and
+   stays within the peer's limit, the receiver's set of outstanding PUBLISH is its handled set, what the receiver announced
+   is what the sender respects — so the quota is never exceeded ("Receive Maximum exceeded" would be a [Bad] step); for
+   EVERY schedule nothing fails, and after the drain the messages notified are exactly the published ones, the vacancy is
+   the full maximum and the receiver has nothing outstanding *)
+Theorem C01_pair_concurrent_exactly_once_v5 : forall gs gr l s,
+  inv5 gs gr s -> Forall good_act5 l ->
+  exists s1 s2, run_sched5 gs gr s l = Some s1 /\ run_sched5 gs gr s1 (drain5 (measure s1)) = Some s2 /\
+                qsr s2 = [] /\ qrs s2 = [] /\ delivered s2 = published s1 /\
+                vacancy (cs s2) = c_send_max (cs s2) /\ c_publish_recv (cr s2) = [] /\
+                (forall m, c_send_max (cs s1) = Some m -> c_send_count (cs s1) = flight s1).
+Proof. exact concurrent5_exactly_once. Qed.
+Print Assumptions C01_pair_concurrent_exactly_once_v5.
+
 (* TRAFFIC IN BOTH DIRECTIONS AT ONCE (intact links): A and B both publish; each link carries one side's PUBLISH / PUBREL
    together with its acknowledgements of the other side's messages.  The invariant [inv2] is [inv] twice (A as sender with
    B as receiver, B as sender with A as receiver); every action of the two-way system is an action of one of the two
@@ -276,8 +291,8 @@ Print Assumptions C01_recv_call_is_deliver.
    (both versions), ANY schedule with several exchanges in flight on intact FIFO links with the exactly-once accounting
    (v3.1.1, automatic responses), and the same WITH TRANSPORT LOSSES and session resumption: safety, progress, QoS 2 exactly
    once and QoS 1 at least once; and traffic in both directions at once on intact links.  NOT proved: a loss in the middle
-   of the resumption handshake or of a frame, losses with traffic in both directions, manual responses, several v5.0
-   exchanges in flight and topic aliases.  Those — with arbitrary
+   of the resumption handshake or of a frame, losses with traffic in both directions, manual responses, v5.0 topic
+   aliases, v5.0 with losses.  Those — with arbitrary
    fragmentation, loss points (incl. mid-frame) and workloads from both sides — are decided on PAIRS OF REAL OBJECTS by the
    monitor mon_c01 (harness conn_duo.rs wires a client and a server object by two byte queues): no protocol error on
    either side, termination, exactly-once / at-least-once / at-most-once delivery with the original topic and payload,
@@ -481,3 +496,31 @@ Example C01_pair_two_way_nonvacuous :
   | _, _ => False
   end.
 Proof. vm_compute. repeat split; try reflexivity; lia. Qed.
+
+
+(* the v5.0 concurrent theorem is not vacuous: Receive Maximum 2 towards the server; the third publication is skipped
+   while two exchanges are in flight (no vacancy) and accepted once one has completed *)
+Example C01_pair_concurrent_v5_nonvacuous :
+  let gs := mkCfg RClient 65535 2 in
+  let gr := mkCfg RServer 65535 2 in
+  let cn := mkPkt 1 V50 0 0 false false [] None 0 0 24 false 0 true 0 None (Some 3) (Some 100) None None in
+  let ca := mkPkt 2 V50 0 0 false false [] None 0 0 11 true 0 false 0 None (Some 2) (Some 50) None None in
+  let ops_s := [OSetAutoPub true; OSend cn; ORecv [32;9;0;0;6;33;0;2;39;0;0;0;50] (PROk ca)] in
+  let ops_r := [OSetAutoPub true; ORecv [16;13;0;4;77;81;84;84;5;2;0;0;0;0;0] (PROk cn); OSend ca] in
+  let pb := fun id q pay => mkPkt 3 V50 id q false false [116] None pay 0 (8 + pay) false 0 false 0 None None None None None in
+  let sched := [Pub5 (pb 1 2 0); Pub5 (pb 2 1 1); Pub5 (pb 3 1 2); ToR5; ToR5; ToS5; ToS5; Pub5 (pb 3 2 2)] in
+  match run_state gs (conn_new gs V50) ops_s, run_state gr (conn_new gr V50) ops_r with
+  | Some c1, Some c2 =>
+      c_send_max c1 = Some 2 /\ c_recv_max c2 = Some 2 /\
+      match run_sched5 gs gr (mkSys c1 c2 [] [] [] []) sched with
+      | Some s1 =>
+          published s1 = [pb 1 2 0; pb 2 1 1; pb 3 2 2] /\ vacancy (cs s1) = Some 0 /\
+          match run_sched5 gs gr s1 (drain5 (measure s1)) with
+          | Some s2 => delivered s2 = published s1 /\ vacancy (cs s2) = Some 2 /\ c_publish_recv (cr s2) = [] /\ qsr s2 = [] /\ qrs s2 = []
+          | None => False
+          end
+      | None => False
+      end
+  | _, _ => False
+  end.
+Proof. vm_compute. repeat split; reflexivity. Qed.
